@@ -365,17 +365,31 @@ def _simple_init(c: ast.ClassDef) -> T.Any:
     return init
 
 
-def dissolve_objects(trees: dict[str, ast.Module], known_classes: dict[str, set[str] | None]) -> dict[str, list[str]]:
+def dissolve_objects(trees: dict[str, ast.Module], known_classes: dict[str, set[str] | None],
+                     abs_module: T.Callable[[str, int, str | None], str] | None = None) -> dict[str, list[str]]:
     from .inline import _expand
 
     notes: dict[str, list[str]] = {rel: [] for rel in trees}
     every_known = {n for known in known_classes.values() for n in (known or ())}
     serial = 0
+    simple: dict[str, dict[str, ast.ClassDef]] = {}
+    for rel, tree in trees.items():
+        known = known_classes.get(rel)
+        simple[rel] = {} if known is None else {c.name: c for c in tree.body if isinstance(c, ast.ClassDef) and c.name not in known and c.name not in every_known
+                                                and _simple_init(c) is not None}
+    rel_of = {(r[:-3].replace("/", ".")[: -len(".__init__")] if r.endswith("__init__.py") else r[:-3].replace("/", ".")): r for r in trees}
     for rel, tree in trees.items():
         known = known_classes.get(rel)
         if known is None:
             continue
-        classes = {c.name: c for c in tree.body if isinstance(c, ast.ClassDef) and c.name not in known and c.name not in every_known and _simple_init(c) is not None}
+        classes = dict(simple[rel])
+        if abs_module is not None:
+            for st in tree.body:
+                if isinstance(st, ast.ImportFrom):
+                    src = rel_of.get(abs_module(rel, st.level, st.module))
+                    for a in st.names:
+                        if src is not None and src != rel and a.asname is None and a.name in simple.get(src, {}):
+                            classes[a.name] = simple[src][a.name]       # a new helper class defined in another unit
         if not classes:
             continue
         parent: dict[int, ast.AST] = {}
@@ -397,6 +411,33 @@ def dissolve_objects(trees: dict[str, ast.Module], known_classes: dict[str, set[
                 tg = st.targets[0] if isinstance(st, ast.Assign) and len(st.targets) == 1 and st.value is call else st.target if isinstance(st, ast.AnnAssign) and st.value is call else None
                 if isinstance(tg, ast.Attribute) and isinstance(tg.value, ast.Name) and tg.value.id == "self":
                     F = tg.attr
+                    occ = [n for n in ast.walk(tree) if isinstance(n, ast.Attribute) and n.attr == F]
+                    stores = [n for n in occ if isinstance(n.ctx, (ast.Store, ast.Del))]
+                    uses = [n for n in occ if isinstance(n.ctx, ast.Load)]
+                    # a local abbreviation `k = self.F` whose every use is `k.attr` is part of the holder: it is resolved first
+                    for u in list(uses):
+                        a_ = parent.get(id(u))
+                        if isinstance(a_, ast.Assign) and a_.value is u and len(a_.targets) == 1 and isinstance(a_.targets[0], ast.Name):
+                            fn_ = parent.get(id(a_))
+                            while fn_ is not None and not isinstance(fn_, FUNC_KINDS):
+                                fn_ = parent.get(id(fn_))
+                            v_ = a_.targets[0].id
+                            occ_v = [n for n in _own_nodes(fn_) if isinstance(n, ast.Name) and n.id == v_] if fn_ is not None else []
+                            loads_v = [n for n in occ_v if isinstance(n.ctx, ast.Load)]
+                            if fn_ is None or len(occ_v) - len(loads_v) != 1 or not all(isinstance(parent.get(id(n)), ast.Attribute) and parent[id(n)].value is n and parent[id(n)].attr in fields for n in loads_v):  # type: ignore[union-attr]
+                                continue
+                            for n in loads_v:
+                                at_ = parent[id(n)]
+                                at_.value = ast.copy_location(ast.Attribute(value=_clone(u.value), attr=F, ctx=ast.Load()), n)  # type: ignore[union-attr]
+                            blk_ = parent.get(id(a_))
+                            for fld_ in ("body", "orelse", "finalbody"):
+                                lst_ = getattr(blk_, fld_, None)
+                                if isinstance(lst_, list) and any(x is a_ for x in lst_):
+                                    lst_[:] = [x for x in lst_ if x is not a_] or [ast.copy_location(ast.Pass(), a_)]
+                    parent = {}
+                    for n in ast.walk(tree):
+                        for ch in ast.iter_child_nodes(n):
+                            parent[id(ch)] = n
                     occ = [n for n in ast.walk(tree) if isinstance(n, ast.Attribute) and n.attr == F]
                     stores = [n for n in occ if isinstance(n.ctx, (ast.Store, ast.Del))]
                     uses = [n for n in occ if isinstance(n.ctx, ast.Load)]
